@@ -326,7 +326,7 @@ NONE = ('adt', OPTION, 'None', ())
 
 
 class State:
-    __slots__ = ('frames', 'cells', 'know', 'lo', 'hi', 'dfa_pos', 'dfa_st', 'trace', 'steps')
+    __slots__ = ('frames', 'cells', 'know', 'lo', 'hi', 'dfa_pos', 'dfa_st', 'trace', 'steps', 'mark_st', 'mark_pos')
 
     def clone(self):
         s = State()
@@ -337,6 +337,7 @@ class State:
         s.dfa_pos, s.dfa_st = self.dfa_pos, self.dfa_st
         s.trace = self.trace
         s.steps = self.steps
+        s.mark_st, s.mark_pos = self.mark_st, self.mark_pos
         return s
 
 
@@ -349,6 +350,7 @@ class Scanner:
     def __init__(self, crate, body, dfa, max_states=60000, follow=None, mode='name'):
         self.crate, self.body, self.dfa = crate, body, dfa
         self.mode = mode      # 'name': returns the scanned name; 'skip': consumes a prefix of the input (white space, comments)
+        self.marker = None    # skip mode: DFA of the prefix after which a returned slice (the comment text) must start (longest match)
         # bytes that may legally follow a name in a text of the grammar (the run of name bytes ends there); default: everything outside the alphabet
         self.follow = frozenset(follow) - dfa.alphabet if follow is not None else ALL - dfa.alphabet
         self.max_states = max_states
@@ -1491,6 +1493,19 @@ class Scanner:
                 for cls in self.dfa.classes:
                     if k & cls:
                         raise NeedByte(i, cls)
+            if self.marker is not None and st.mark_pos is None:
+                for cls in self.marker.classes:
+                    if k <= cls:
+                        break
+                else:
+                    for cls in self.marker.classes:
+                        if k & cls:
+                            raise NeedByte(i, cls)
+                q2 = self.marker.step(st.mark_st, min(k))
+                if self.marker.live[q2]:
+                    st.mark_st = q2
+                else:
+                    st.mark_pos = i      # the longest match of the marker prefix ends in front of this byte
             st.dfa_st = self.dfa.step(st.dfa_st, min(k))
             st.trace = st.trace + (class_name(k),)
             if len(st.trace) > 12:
@@ -1551,7 +1566,7 @@ class Scanner:
         fr = tuple((b.path, blk, tuple(sorted(((l, kv(v) if v is not None else None) for l, v in loc.items()), key=lambda x: repr(x[0]))), dest) for b, blk, loc, dest in st.frames)
         cells = tuple(sorted((c, kv(v)) for c, v in st.cells.items()))
         know = tuple(sorted(((ki(i), tuple(sorted(s))) for i, s in st.know.items() if s != ALL), key=repr))
-        return (fr, cells, know, ki(st.lo), None if st.hi is None else ki(st.hi), ki(st.dfa_pos), st.dfa_st)
+        return (fr, cells, know, ki(st.lo), None if st.hi is None else ki(st.hi), ki(st.dfa_pos), st.dfa_st, st.mark_st, None if st.mark_pos is None else ki(st.mark_pos))
 
     # ---------------------------------------------------------------- driver
     def run(self):
@@ -1561,6 +1576,7 @@ class Scanner:
         st.know = {}
         st.lo, st.hi = 0, None
         st.dfa_pos, st.dfa_st = 0, 0
+        st.mark_st, st.mark_pos = 0, None
         st.trace = ()
         st.steps = 0
         import collections
@@ -1726,6 +1742,14 @@ class Scanner:
             if d[2] == 'END' or d[2] != b:
                 self.outcomes.append(Outcome('consume', st, 'returns S[%s..%s) but leaves the input at %d' % (d[1], d[2], b)))
                 return
+            if self.marker is not None:
+                m = b if st.mark_pos is None else st.mark_pos
+                if not self.marker.accept[st.mark_st] and st.mark_pos is None:
+                    m = None
+                if m is None or d[1] != m:
+                    self.outcomes.append(Outcome('text-start', st, 'returns a text that starts %s the end of the longest /%s/ prefix of [%s] (text S[%s..%s), prefix ends at %s)'
+                                                 % ('before' if (m is not None and d[1] < m) else 'after', self.marker.regex, where, d[1], d[2], m)))
+                    return
         if self.len_gt(st, b):
             k = self.kn(st, b)
             ext = set()
@@ -1774,8 +1798,10 @@ class Scanner:
         return None
 
 
-def analyse(crate, body, regex, **kw):
+def analyse(crate, body, regex, marker=None, **kw):
     dfa = DFA(regex)
     sc = Scanner(crate, body, dfa, **kw)
+    if marker is not None:
+        sc.marker = DFA(marker)
     outs = sc.run()
     return sc, outs
